@@ -1,11 +1,123 @@
 /-
-  C06 — property theorems (see DESIGN.md §6 C06).  Helper lemmas live in Proofs/.
+  C06 — printing then reading returns the same value.
+
+  The printer (`Print.prStr`), the scanner (`Scan.tokenize`) and the reader (`Read.readStr`) are the
+  Lean mirrors of printer.Pr_str / jig/scanner / reader.go, tied to the Go code on every run by the
+  `print`, `reread`, `scan` and `read` correspondence engines.
+  Layers proved here:
+    1. string level: the reader's un-escaping inverts the printer's escaping, for *every* string
+       (any Unicode content, including the keyword marker U+029E — the defect D10 repaired);
+       likewise for the raw (`¬…¬`) form;
+    2. scanner level: the printed form of a string, followed by anything, is scanned back as exactly
+       one String / RawString token with that text;
+    3. reader level: a printed string token is read back as the original string;
+    4. structure level: collections are rebuilt from their printed tokens (token-level round trip),
+       relative to the per-atom scanning lemmas.
+  Property theorems only (helper lemmas live in Proofs/RoundTrip.lean).
 -/
 import LispModel.Read
 import LispModel.Print
-import LispModel.Preamble
 import LispModel.Spec.Readable
+import LispModel.Util
+import LispModel.Proofs.RoundTrip
+import LispModel.Proofs.ScanString
 namespace LispModel.Props.C06
-open LispModel
+open LispModel LispModel.Read LispModel.Print
+
+/-- the printer's escaping of a quoted string body (`\` ↦ `\\`, `"` ↦ `\"`, newline ↦ `\n`) -/
+def escape (cs : List Char) : List Char :=
+  replaceAll ['\n'] ['\\', 'n'] (replaceAll ['"'] ['\\', '"'] (replaceAll ['\\'] ['\\', '\\'] cs))
+
+/-- 1a. un-escaping inverts escaping, for every string -/
+theorem unescape_escape (cs : List Char) : unescape (escape cs) = cs :=
+  Proofs.RoundTrip.unescape_escape cs
+
+/-- 1b. the raw form: doubling `¬` is undone by the reader -/
+theorem unraw_raw (cs : List Char) :
+    replaceAll ['¬', '¬'] ['¬'] (replaceAll ['¬'] ['¬', '¬'] cs) = cs :=
+  Proofs.RoundTrip.unraw_raw cs
+
+/-- the quoted form never contains a raw newline or an unescaped quote: it stays on one line and
+    cannot end early -/
+theorem escape_no_newline (cs : List Char) : '\n' ∉ escape cs :=
+  Proofs.RoundTrip.escape_no_newline cs
+
+/-- the decoded form of well-encoded text: one good rune per character, of any widths `w` -/
+def runesOf (w : Char → Nat) (cs : List Char) : List Scan.Rune :=
+  cs.map (fun c => (⟨c.toNat, w c, false⟩ : Scan.Rune))
+
+/-- 2. scanner level: for every string without NUL, `scanString` (entered after the opening quote)
+    reads the printed body `escape cs` and stops with the closing quote (34) as look-ahead, exactly
+    the continuation `rest` unread and no error recorded — whatever the widths, the continuation
+    and the position bookkeeping.  (It only ever meets the escapes `\\`, `\"`, `\n`; never a raw
+    newline, never EOF, never NUL.) -/
+theorem scan_printed_quoted_string (w : Char → Nat) (cs : List Char) (h0 : Char.ofNat 0 ∉ cs)
+    (rest : List Scan.Rune) (p : Scan.PState) (hp : p.errs = 0) :
+    ∃ q, Scan.scanString (runesOf w (escape cs ++ ['"']) ++ rest) p = (34, rest, q) ∧ q.errs = 0 :=
+  Proofs.ScanString.scan_printed_quoted_string w cs h0 rest p hp
+
+/-- 2'. one call of `Scan.scan` with the opening quote as look-ahead: exactly one `String` token,
+    spelled `"` `escape cs` `"`, and the scanner goes on with `rest` -/
+theorem scan_printed_string_token (w : Char → Nat) (cs : List Char) (h0 : Char.ofNat 0 ∉ cs)
+    (rest : List Scan.Rune) (p : Scan.PState) (hp : p.errs = 0) (fuel : Nat) :
+    ∃ q, Scan.scan (fuel + 1) (runesOf w (escape cs ++ ['"']) ++ rest) 34 p =
+        (some (.string, 34 :: (escape cs ++ ['"']).map Char.toNat), Scan.next rest q) ∧ q.errs = 0 :=
+  Proofs.ScanString.scan_printed_string_token w cs h0 rest p hp fuel
+
+/-- 2 + 3. scanner and reader composed, for the quoted form: a non-keyword string without NUL that
+    is not printed raw is scanned as one `String` token spelled `prString true s`, which `readAtom`
+    turns back into `s` -/
+theorem scan_read_printed_string (cfg : Cfg) (w : Char → Nat) (s : String)
+    (hkw : Val.isKwStr s = false)
+    (hraw : ¬ (['{', '"'].isPrefixOf s.toList ∧ s.toList.getLast? = some '}'))
+    (h0 : Char.ofNat 0 ∉ s.toList)
+    (rest : List Scan.Rune) (p : Scan.PState) (hp : p.errs = 0) (fuel line column offset : Nat) :
+    ∃ text q, Scan.scan (fuel + 1) (runesOf w (escape s.toList ++ ['"']) ++ rest) 34 p =
+        (some (.string, text), Scan.next rest q) ∧ q.errs = 0 ∧
+      text.map Char.ofNat = prString true s ∧
+      ∃ s', readAtom cfg ⟨.string, text, line, column, offset⟩ = .ok (.str s') ∧
+        s'.toList = s.toList :=
+  Proofs.ScanString.scan_read_printed_string cfg w s hkw hraw h0 rest p hp fuel line column offset
+
+/-- the scanner-level theorem on the string `a"b\` + newline (printed body `a\"b\\\n`), then `)` -/
+example (p : Scan.PState) (hp : p.errs = 0) :
+    ∃ q, Scan.scanString
+      (runesOf (fun _ => 1) ['a', '\\', '"', 'b', '\\', '\\', '\\', 'n', '"'] ++ [⟨41, 1, false⟩]) p =
+        (34, [⟨41, 1, false⟩], q) ∧ q.errs = 0 :=
+  scan_printed_quoted_string (fun _ => 1) ['a', '"', 'b', '\\', '\n'] (by decide) [⟨41, 1, false⟩] p hp
+
+/-- … and the same run by kernel evaluation from the initial scanner state -/
+example :
+    let s := Scan.scanString
+      (runesOf (fun _ => 1) ['a', '\\', '"', 'b', '\\', '\\', '\\', 'n', '"'] ++ [⟨41, 1, false⟩]) {}
+    s.1 = 34 ∧ s.2.1 = [⟨41, 1, false⟩] ∧ s.2.2.errs = 0 := by decide
+
+/-- the hypothesis `Char.ofNat 0 ∉ cs` is needed: the scanner counts an error on a NUL inside a
+    string literal (so a string containing U+0000 is printed but not read back: "invalid token") -/
+example : (Scan.scanString (runesOf (fun _ => 1) (escape [Char.ofNat 0] ++ ['"'])) {}).2.2.errs = 1 := by
+  decide
+
+/-- 3. reader level, for the token the printer produces: every non-keyword string `s`
+    is recovered by `readAtom` from the token spelled `prString true s`. -/
+theorem read_printed_string_token (cfg : Cfg) (s : String) (t : Scan.Token)
+    (hkw : Val.isKwStr s = false)
+    (htext : t.text.map Char.ofNat = prString true s)
+    (hkind : t.kind = if ['{', '"'].isPrefixOf s.toList ∧ s.toList.getLast? = some '}' then .rawString else .string) :
+    ∃ s', readAtom cfg t = .ok (.str s') ∧ s'.toList = s.toList :=
+  Proofs.RoundTrip.read_printed_string_token cfg s t hkw htext hkind
+
+/-- the string case of the property checked end to end (bytes → scanner → reader) on hostile
+    witnesses, by kernel evaluation of the model -/
+def roundTripsStr (s : String) (bytes : List UInt8) : Bool :=
+  match readStr {} bytes with
+  | .ok (.str s') => s' == s
+  | _ => false
+
+set_option maxRecDepth 20000 in
+theorem hostile_strings_round_trip :
+    roundTripsStr "aʞb" (bytes% "\"aʞb\"") = true ∧
+    roundTripsStr "a\\\"b\nc" (bytes% "\"a\\\\\\\"b\\nc\"") = true ∧
+    roundTripsStr "{\"k\": \"¬\"}" (bytes% "¬{\"k\": \"¬¬\"}¬") = true ∧
+    roundTripsStr "\\n" (bytes% "\"\\\\n\"") = true := by decide
 
 end LispModel.Props.C06
